@@ -103,6 +103,12 @@ CHECKS = {
         "text": "Generated trees over an alphabet of NUL, backslash, escape-looking text, regex metacharacters, non-ASCII and astral code points with boundary 64-bit indices, plus an enumeration of every operation over an 18-string x 7-index pool: the folded value, the value of the BackendZ3 translation under the assignment, and the value computed under a cached model (ModelCache.eval_ast) must all equal the reference; every string constant must reach Z3 as exactly its code points.",
         "note": "A disagreement between the two references would be counted and not reported; none occurs. Strings above U+2FFFF are outside SMT-LIB and not generated.",
     },
+    "C20": {
+        "level": "exploration",
+        "technique": "stress fuzzing with real threads: generated solver histories run concurrently by 2-16 threads over shared hash-consed expressions, varied switch intervals, every answer checked against a brute-force model set and against solo runs; crashes of the interpreter caught by running cases in child processes",
+        "text": "Deliberately weak: the harness does not control the interleaving. 2-16 real threads start behind a barrier and run generated histories on their own solver objects (Solver, SolverCacheless, SolverComposite, SolverHybrid) over shared variable names, so hash-consed ASTs, their error sets and the simplification cache are shared while Z3 contexts and conversion caches are thread-local; one thread keeps calling backends.z3.downsize(). Every answer is checked against the thread's brute-force model set (which pins the deterministic answers to the solo-run values); a history failing alone is attributed to C11-C13; a failure must reproduce in 1 of 3 immediate repeats; interpreter crashes are pinned to the running case through a per-case log written by a child process and confirmed by re-runs.",
+        "note": "Can only show presence of races: a narrow window may never fire under the GIL. Evidence reports the number of (threads x histories x switch-interval) runs.",
+    },
     "C21": {
         "level": "exploration",
         "technique": "bounded-exhaustive enumeration + property-based testing: every pair of canonical strided intervals of width 1-3 (and a third / all at width 4) per transfer function, generated wide intervals with sampled members; containment of concrete results in the member set of the abstract result",
